@@ -186,7 +186,7 @@ def gen_nat_case(rng, ctx):
         sets_[1] = [dict(hostPort=8080, containerPort=8, protocol="TCP", podName="0a", podIP="10.0.0.3")]
         ctx.dist("ports:hash-preimage-neighbours")
     steps = []
-    tmpl = rng.choice(["inverse", "inverse", "inverse2", "sync", "sync", "sync-idem", "mixed", "mixed", "clean-absent",
+    tmpl = rng.choice(["inverse", "inverse", "inverse2", "sync", "sync", "sync-save-fails", "sync-idem", "mixed", "mixed", "clean-absent",
                        "setup-twice", "daemon", "sync-same-name", "sync-same-name"])
     ctx.dist("nat-template:" + tmpl)
     if tmpl != "sync" and rng.random() < 0.7:
@@ -198,6 +198,11 @@ def gen_nat_case(rng, ctx):
         steps += [dict(op="setup", ports=A), dict(op="setup", ports=B), dict(op="clean", ports=B), dict(op="clean", ports=A)]
     elif tmpl == "sync":
         steps += [dict(op="setup_all", ports=A + B)]
+    elif tmpl == "sync-save-fails":
+        # the start-up synchronisation cannot read the table (iptables-save fails: the xtables lock is held): it must not report
+        # success - what it cannot see it cannot have cleaned up; the retry does the whole job
+        ps = rng.choice([A + B, A, []])
+        steps += [dict(op="setup_all", ports=ps, save_fault=True), dict(op="setup_all", ports=ps)]
     elif tmpl == "sync-idem":
         ps = rng.choice([A + B, A, [], A + B + C])
         steps += [dict(op="setup_all", ports=ps), dict(op="setup_all", ports=ps)]
@@ -290,6 +295,15 @@ def nat_exprs(case, o):
     prior = ctable([dict(name=c["name"], rules=[canon_rule(t) for t in c["rules"]]) for c in case["prior"]] +
                    [dict(name=n, rules=[]) for n in NAT_BUILTIN if n not in [c["name"] for c in case["prior"]]])
     seq = [(st, ob) for st, ob in zip(case["steps"], o["steps"]) if st["op"] in NAT_OPS]
+    # a synchronisation whose iptables-save failed and which reported the failure without touching the table is a step that did
+    # not happen (the model has no such step); one that reports SUCCESS is judged like any other synchronisation
+    keep, prev_nat = [], None
+    for st, ob in seq:
+        if st.get("save_fault") and ob["err"] and (prev_nat is None or ob["nat"] == prev_nat):
+            continue
+        keep.append((st, ob))
+        prev_nat = ob["nat"]
+    seq = keep
     if not seq:
         return None, []
     steps = clist("(%s, %s, %s)" % (cnstep(st), cbool(ob["err"]), ctable(ob["nat"])) for st, ob in seq)
